@@ -19,7 +19,7 @@
 #![allow(dead_code)]
 
 #[path = "../util.rs"]
-mod util;
+pub mod util;
 
 use std::io::Write;
 use std::process::ExitCode;
